@@ -210,9 +210,9 @@ func (s *Set) Intersect(t Set) error {
 		if selem.rank == empty { // Shouldn't happen.
 			continue
 		}
-		// Intersect selem with each member of t. Since they're
-		// canonical, so sorted in Min order, we can stop once there's
-		// no chance of overlap.
+		// Intersect selem with each member of t. (A set read by
+		// ParseSetConstraint keeps its spans in the order they were
+		// written, so there is no stopping early.)
 		for _, telem := range t.span {
 			if telem.rank == empty { // Shouldn't happen.
 				continue
@@ -222,8 +222,7 @@ func (s *Set) Intersect(t Set) error {
 				continue // Not there yet.
 			}
 			if telem.min.greaterThan(selem.max) {
-				// No need to check further.
-				break
+				continue // Already past it.
 			}
 			// We know they overlap. Choose the larger min and the lesser max.
 			min, max := selem.min, selem.max
